@@ -163,6 +163,29 @@ fn check2(out: &mut Out, format: Format, blk: &[u8], q: CompressionQuality, m: E
     println!("IMPL-VIOLATION {tag}two representable colours decode outside the endpoint quantisation step: channel {c} in {src} error {e} (bound {tol}): {what}");
 }
 
+/// tag 55: the pixels the block encoders gather into each 4x4 block (edge padding included) against model/EncBlocks.v.
+/// The image carries its pixel number in the red channel (exact in f32), the hook reports red * 8192 of every position.
+fn block_contents(out: &mut Out, thorough: bool, rng: &mut Rng) {
+    for format in [Format::BC1_UNORM, Format::BC4_UNORM, Format::BC3_UNORM, Format::BC5_UNORM, Format::BC7_UNORM] {
+        for k in 0..(if thorough { 24 } else { 6 }) {
+            let (w, h) = match k % 3 { 0 => (1 + rng.below(9) as u32, 1 + rng.below(9) as u32), 1 => (4 * (1 + rng.below(4) as u32), 4 * (1 + rng.below(3) as u32)), _ => (1 + rng.below(21) as u32, 1 + rng.below(14) as u32) };
+            let mut data: Vec<u8> = Vec::with_capacity((w * h * 16) as usize);
+            for i in 0..(w * h) { for c in 0..4 { let v: f32 = if c == 0 { (i + 1) as f32 / 8192.0 } else { 1.0 }; data.extend_from_slice(&v.to_ne_bytes()); } }
+            let mut o = EncodeOptions::default(); o.quality = CompressionQuality::Fast; o.parallel = false;
+            let view = ImageView::new(&data, Size::new(w, h), ColorFormat::RGBA_F32).unwrap();
+            let mut sink = Vec::new();
+            dds::verif_hooks::start_block_trace();
+            let r = catch(|| encode(&mut sink, view, format, None, &o));
+            let trace = dds::verif_hooks::take_block_trace();
+            if !matches!(r, Some(Ok(()))) { println!("IMPL-VIOLATION encode failed or panicked: {:?} {w}x{h} (block contents)", format); continue; }
+            let mut obs: Vec<i128> = Vec::new();
+            for e in trace.iter().filter(|e| e[0] == 7) { obs.push(e.len() as i128); obs.extend(e.iter().map(|&v| v as i128)); }
+            out.count("block_contents_cases");
+            out.case(55, &[w as i128, h as i128], &obs);
+        }
+    }
+}
+
 pub fn run(out: &mut Out, tier: &str, seed: u64, _corpus: Option<&str>) {
     let thorough = tier == "thorough";
     let mut rng = Rng::new(seed ^ 0xC13);
@@ -238,5 +261,6 @@ pub fn run(out: &mut Out, tier: &str, seed: u64, _corpus: Option<&str>) {
             }
         }
     }
+    block_contents(out, thorough, &mut rng);
     out.case(1, &[13], &[13]);
 }
